@@ -24,7 +24,7 @@ THEOREMS = [
     "Ebv.C01.assign_correct_reg", "Ebv.C01.assign_correct_mem", "Ebv.C01.stmts_correct", "Ebv.C01.C01_core",
     "Ebv.C01.C01_partial", "Ebv.C01.load_shift_is_setitem", "Ebv.C01.load_shift_in_range",
     "Ebv.C01.C01_full_refuted", "Ebv.C01.unary_in_place_refuted", "Ebv.C01.unary_32_in_64_refuted",
-    "Ebv.C01.narrow_reg_in_64_refuted", "Ebv.C01.sum_minus_refuted", "Ebv.C01.abs_32_refuted",
+    "Ebv.C01.narrow_reg_in_64_refuted", "Ebv.C01.before_fix_sum_minus", "Ebv.C01.abs_32_refuted",
     "Ebv.C01.divmod_negative_refuted", "Ebv.C01.rshift_negative_refuted",
 ]
 TRUSTED = ["hand-written model Ebv.Gen of the expression code generator (ebpfcat/ebpf.py: operator protocol, calculate/load/"
@@ -44,7 +44,8 @@ RULE = ("programs = JSON surface DSL (dsl.py): random trees to depth 5 over regi
         "negative 64-bit, > 2^64}, operators + - * | ^ << & >> // % neg abs and computed addresses; the depth-1 family "
         "(operator x leaf kind x leaf kind x destination kind x constant class) and the depth-2 family (two operators x shape x "
         "leaf kind classes), sampled in the quick tier and enumerated (stage 3 depth 2: 60000 sampled) in the thorough tier; targeted "
-        "shapes (Sum +- int, Sum - expr, Binary + Sum, destination aliasing, register pressure, unowned registers); "
+        "shapes (Sum +- int, int + Sum, Sum - expr also below other operators, ONE Sum object used twice with different added "
+        "constants (let/ref: a real shared object), Binary + Sum, destination aliasing, register pressure, unowned registers); "
         "inputs = boundary (0, +-1, sign bits, all-ones, width edges) and random register/variable contents, half of them small "
         "so that products and quotients stay inside the precondition; non-trivial = accepted with more than one instruction")
 
@@ -56,7 +57,7 @@ GLOBAL_BASE = interp.MAP_BASE
 
 # defect classes of the unchanged tree (program-level predicates, computed on the real object tree here and on the
 # model's `Expr` in Lean; the two are compared as part of the correspondence), in order of precedence
-PROGRAM_CLASSES = ["sum-minus", "unary-in-place", "unary-32-in-64", "narrow-reg-in-64", "abs-32"]
+PROGRAM_CLASSES = ["unary-in-place", "unary-32-in-64", "narrow-reg-in-64", "abs-32"]
 # classes that additionally look at the inputs (evaluated with the reference semantics)
 INPUT_CLASSES = ["divmod-negative", "rshift-negative-logical"]
 
@@ -452,7 +453,9 @@ PROVED = [
     "immediate vs register form, temporary + final move when the right operand mentions the destination, release order",
     "Negate", "LocalVar / array-map variable reads of all eight formats (load + shift-pair sign extension)",
     "RegisterArray.__setitem__", "Memory._set (ST immediate and STX path, truncation by store width)",
-    "integer semantics (evalBV = evalZ) for + - * | & ^ << and unary minus; operator-overload layer (elab_evalZ) for all operators",
+    "integer semantics (evalBV = evalZ) for + - * | & ^ << and unary minus; operator-overload layer (elab_evalZ) for all operators "
+    "without exception (Sum - expression, Sum +- int, int + Sum included; the operator overloads do not mutate their operands, so a "
+    "shared object equals a copy of its tree)",
 ]
 CORRESPONDED_NOT_PROVED = [
     "abs (Absolute: forward JSGE + NEG64) -- modelled + corresponded + oracle; outside Expr.frag",
@@ -477,7 +480,9 @@ LEVEL_NOTE = ("trusted: Lean kernel + propext/Classical.choice/Quot.sound; Gen <
               "Negate, variable reads/writes of the 8 formats, both store paths, __setitem__; integer level for + - * | & ^ << neg. "
               "Corresponded + oracle only (NOT proved): abs, computed non-Sum addresses, integer-level // % >>, width None. Known defect "
               "classes of the unchanged tree (each refuted in Lean on a witness): unary-in-place, unary-32-in-64, narrow-reg-in-64, "
-              "sum-minus, abs-32, divmod-negative, rshift-negative-logical. Also seen, outside the property: Sum +- int returns None "
-              "(TypeError at assignment); a register nobody owns is accepted while it is handed out as a temporary.")
+              "abs-32, divmod-negative, rshift-negative-logical. Repaired and now inside C01_partial at full strength: Sum - expression "
+              "(was class sum-minus) and Sum +- int (returned None and changed the shared Constant); regression witness "
+              "before_fix_sum_minus. Also seen, outside the property: a register nobody owns is accepted while it is handed out as a "
+              "temporary.")
 TECHNIQUE = "Lean 4 structural induction over expression trees (compiler correctness) + exact opcode-list correspondence"
 DESIGN_REF = "§4 C01"
